@@ -1,8 +1,713 @@
-(* BloomProofs.v — lemmas about the Bloom filter model (placeholder, being developed). *)
+(* BloomProofs.v — lemmas about the Bloom filter model BloomDefs.v: bit-array level, one filter object
+   (with the count stored in wrapped memory) under arbitrary operation histories, for an arbitrary index function. *)
 From Coq Require Import ZArith NArith List Bool Lia.
 From DS Require Import Word XXHash64 RunnerLib BloomDefs.
 Import ListNotations.
 Local Open Scope N_scope.
 
-Lemma core_update_ro f bits idx : f_ro f = true -> core_update f bits idx = None.
-Proof. intros H. unfold core_update. now rewrite H. Qed.
+(* ------------------------------------------------------------------ *)
+(* popcount                                                             *)
+(* ------------------------------------------------------------------ *)
+
+Lemma popcount_div2 b : popcount b = popcount (N.div2 b) + (if N.odd b then 1 else 0).
+Proof. destruct b as [|[p|p|]]; cbn -[N.add]; lia. Qed.
+
+Lemma popcount_zero b : popcount b = 0 <-> b = 0.
+Proof.
+  split; [|intros ->; reflexivity].
+  destruct b as [|p]; [reflexivity|]. cbn -[N.add]. intros H. exfalso.
+  induction p; cbn -[N.add] in H; lia.
+Qed.
+
+Lemma popcount_le_pow2 n : forall b, b < 2 ^ n -> popcount b <= n.
+Proof.
+  induction n as [|n IH] using N.peano_ind; intros b Hb.
+  - cbn in Hb. assert (b = 0) by lia. subst. cbn. lia.
+  - rewrite popcount_div2.
+    assert (Hd : N.div2 b < 2 ^ n).
+    { rewrite N.div2_div. apply N.div_lt_upper_bound; [lia|]. rewrite <- N.pow_succ_r'. exact Hb. }
+    specialize (IH _ Hd). destruct (N.odd b); lia.
+Qed.
+
+Lemma setbit_div2_succ b i : N.div2 (N.setbit b (N.succ i)) = N.setbit (N.div2 b) i.
+Proof.
+  apply N.bits_inj. intros j.
+  rewrite N.div2_spec, N.shiftr_spec' , N.setbit_eqb, N.setbit_eqb, N.div2_spec, N.shiftr_spec'.
+  replace (N.succ i =? j + 1) with (i =? j); [reflexivity|].
+  destruct (N.eqb_spec i j), (N.eqb_spec (N.succ i) (j + 1)); try reflexivity; lia.
+Qed.
+
+Lemma setbit_odd_succ b i : N.odd (N.setbit b (N.succ i)) = N.odd b.
+Proof.
+  rewrite <- !N.bit0_odd, N.setbit_eqb.
+  destruct (N.eqb_spec (N.succ i) 0); [lia|reflexivity].
+Qed.
+
+Lemma popcount_setbit i : forall b,
+  popcount (N.setbit b i) = popcount b + (if N.testbit b i then 0 else 1).
+Proof.
+  induction i as [|i IH] using N.peano_ind; intros b.
+  - destruct b as [|[p|p|]]; cbn -[N.add]; try lia.
+  - rewrite (popcount_div2 (N.setbit b (N.succ i))), setbit_div2_succ, setbit_odd_succ, IH.
+    rewrite (popcount_div2 b) at 1.
+    replace (N.testbit b (N.succ i)) with (N.testbit (N.div2 b) i).
+    + lia.
+    + rewrite N.div2_spec, N.shiftr_spec'. f_equal. lia.
+Qed.
+
+(* ------------------------------------------------------------------ *)
+(* ranges                                                               *)
+(* ------------------------------------------------------------------ *)
+
+Definition in_range (b cap : N) : Prop := forall j, cap <= j -> N.testbit b j = false.
+
+Lemma in_range_lt b cap : in_range b cap -> b < 2 ^ cap.
+Proof.
+  intros H.
+  assert (E : b mod 2 ^ cap = b).
+  { apply N.bits_inj. intros j. destruct (N.lt_ge_cases j cap).
+    - now rewrite N.mod_pow2_bits_low.
+    - rewrite N.mod_pow2_bits_high by assumption. symmetry. now apply H. }
+  rewrite <- E. apply N.mod_lt. apply N.pow_nonzero. lia.
+Qed.
+
+Lemma lt_in_range b cap : b < 2 ^ cap -> in_range b cap.
+Proof.
+  intros H j Hj. destruct (N.eq_dec b 0) as [->|Hne]; [apply N.bits_0|].
+  apply N.bits_above_log2. apply N.log2_lt_pow2; [lia|].
+  eapply N.lt_le_trans; [exact H|]. apply N.pow_le_mono_r; lia.
+Qed.
+
+Lemma in_range_popcount b cap : in_range b cap -> popcount b <= cap.
+Proof. intros H. apply popcount_le_pow2. now apply in_range_lt. Qed.
+
+Lemma in_range_0 cap : in_range 0 cap.
+Proof. intros j _. apply N.bits_0. Qed.
+
+Lemma in_range_setbit b cap i : in_range b cap -> i < cap -> in_range (N.setbit b i) cap.
+Proof.
+  intros H Hi j Hj. rewrite N.setbit_eqb, (H j Hj).
+  destruct (N.eqb_spec i j); [lia|reflexivity].
+Qed.
+
+Lemma in_range_lor a b cap : in_range a cap -> in_range b cap -> in_range (N.lor a b) cap.
+Proof. intros Ha Hb j Hj. now rewrite N.lor_spec, Ha, Hb. Qed.
+
+Lemma in_range_land a b cap : in_range a cap -> in_range (N.land a b) cap.
+Proof. intros Ha j Hj. now rewrite N.land_spec, Ha. Qed.
+
+Lemma ones_spec cap j : N.testbit (N.ones cap) j = (j <? cap).
+Proof.
+  destruct (N.ltb_spec j cap).
+  - now apply N.ones_spec_low.
+  - now apply N.ones_spec_high.
+Qed.
+
+Lemma in_range_invert b cap : in_range b cap -> in_range (N.lxor b (N.ones cap)) cap.
+Proof.
+  intros Hb j Hj. rewrite N.lxor_spec, Hb, ones_spec by assumption.
+  destruct (N.ltb_spec j cap); [lia|reflexivity].
+Qed.
+
+(* ------------------------------------------------------------------ *)
+(* set_bits / all_set / the query_and_update loop                       *)
+(* ------------------------------------------------------------------ *)
+
+Lemma set_bits_testbit l : forall b j,
+  N.testbit (set_bits b l) j = N.testbit b j || existsb (N.eqb j) l.
+Proof.
+  unfold set_bits. induction l as [|i t IH]; intros b j; cbn [fold_left existsb].
+  - now rewrite orb_false_r.
+  - rewrite IH, N.setbit_eqb, (N.eqb_sym i j).
+    destruct (j =? i), (N.testbit b j); reflexivity.
+Qed.
+
+Lemma set_bits_mono b l j : N.testbit b j = true -> N.testbit (set_bits b l) j = true.
+Proof. intros H. now rewrite set_bits_testbit, H. Qed.
+
+Lemma existsb_eqb_In j l : In j l -> existsb (N.eqb j) l = true.
+Proof. intros H. apply existsb_exists. exists j. split; [assumption|apply N.eqb_refl]. Qed.
+
+Lemma all_set_spec b l : all_set b l = true <-> (forall i, In i l -> N.testbit b i = true).
+Proof. unfold all_set. apply forallb_forall. Qed.
+
+Lemma all_set_set_bits b l : all_set (set_bits b l) l = true.
+Proof.
+  apply all_set_spec. intros i Hi. rewrite set_bits_testbit, (existsb_eqb_In _ _ Hi). apply orb_true_r.
+Qed.
+
+Lemma all_set_mono b b' l :
+  (forall j, N.testbit b j = true -> N.testbit b' j = true) -> all_set b l = true -> all_set b' l = true.
+Proof. rewrite !all_set_spec. intros Hm H i Hi. apply Hm, H, Hi. Qed.
+
+Lemma in_range_set_bits cap l : forall b,
+  in_range b cap -> (forall i, In i l -> i < cap) -> in_range (set_bits b l) cap.
+Proof.
+  unfold set_bits. induction l as [|i t IH]; intros b Hb Hl; cbn [fold_left]; [assumption|].
+  apply IH.
+  - apply in_range_setbit; [assumption|]. apply Hl. now left.
+  - intros k Hk. apply Hl. now right.
+Qed.
+
+Lemma set_bits_nonzero b l : l <> [] -> set_bits b l <> 0.
+Proof.
+  intros Hl E. destruct l as [|i t]; [congruence|].
+  pose proof (all_set_set_bits b (i :: t)) as H. rewrite E in H.
+  rewrite all_set_spec in H. specialize (H i (or_introl eq_refl)). now rewrite N.bits_0 in H.
+Qed.
+
+Lemma setbit_same b i : N.testbit b i = true -> N.setbit b i = b.
+Proof.
+  intros H. apply N.bits_inj. intros j. rewrite N.setbit_eqb.
+  destruct (N.eqb_spec i j); [subst; now rewrite H|reflexivity].
+Qed.
+
+Lemma w64_idem x : w64 (w64 x) = w64 x.
+Proof. rewrite !w64_mod. apply N.mod_mod. discriminate. Qed.
+
+Lemma w64_add_l a b : w64 (w64 a + b) = w64 (a + b).
+Proof. rewrite !w64_mod. rewrite N.add_mod_idemp_l; [reflexivity|discriminate]. Qed.
+
+Lemma w64_small x : x < two64 -> w64 x = x.
+Proof. intros H. rewrite w64_mod. now apply N.mod_small. Qed.
+
+Lemma mod_succ_cancel a b T : a < T -> b < T -> (a + 1) mod T = (b + 1) mod T -> a = b.
+Proof.
+  intros Ha Hb E. assert (HT : T <> 0) by lia.
+  destruct (N.eq_dec (a + 1) T) as [E1|E1], (N.eq_dec (b + 1) T) as [E2|E2].
+  - lia.
+  - rewrite E1, (N.mod_same T HT), (N.mod_small (b + 1) T) in E by lia. lia.
+  - rewrite E2, (N.mod_same T HT), (N.mod_small (a + 1) T) in E by lia. lia.
+  - rewrite (N.mod_small (a + 1) T), (N.mod_small (b + 1) T) in E by lia. lia.
+Qed.
+
+(* the loop sets exactly the index bits, reports whether all of them were set before, and adds the number of newly set bits
+   to the count (mod 2^64) *)
+Lemma qau_loop_spec l : forall bits cnt ex,
+  let '(b', c', e') := qau_loop l bits cnt ex in
+  b' = set_bits bits l /\ e' = ex && all_set bits l /\
+  w64 (c' + popcount bits) = w64 (cnt + popcount b') /\ (l <> [] -> c' < two64).
+Proof.
+  induction l as [|i t IH]; intros bits cnt ex; cbn [qau_loop].
+  - cbn. rewrite andb_true_r. repeat split; congruence.
+  - specialize (IH (N.setbit bits i) (w64 (cnt + (if N.testbit bits i then 0 else 1))) (ex && N.testbit bits i)).
+    destruct (qau_loop t (N.setbit bits i) (w64 (cnt + (if N.testbit bits i then 0 else 1))) (ex && N.testbit bits i))
+      as [[b' c'] e'] eqn:Eq.
+    destruct IH as (Hb & He & Hc & Hlt).
+    split; [exact Hb|]. split; [|split].
+    + rewrite He. cbn [all_set forallb]. fold (all_set bits t). fold (all_set (N.setbit bits i) t).
+      destruct (N.testbit bits i) eqn:Ht.
+      * rewrite (setbit_same _ _ Ht). now rewrite andb_true_r, andb_true_l.
+      * destruct ex; reflexivity.
+    + rewrite popcount_setbit in Hc.
+      (* c' + (pc + d) == (cnt + d) + pc'  =>  c' + pc == cnt + pc' *)
+      rewrite w64_add_l in Hc. rewrite !w64_mod in *.
+      set (d := if N.testbit bits i then 0 else 1) in *.
+      assert (E : (c' + popcount bits + d) mod two64 = (cnt + popcount b' + d) mod two64).
+      { replace (c' + popcount bits + d) with (c' + (popcount bits + d)) by lia.
+        replace (cnt + popcount b' + d) with (cnt + d + popcount b') by lia. exact Hc. }
+      destruct (N.testbit bits i); subst d; [now rewrite !N.add_0_r in E|].
+      (* cancel +1 modulo 2^64 *)
+      assert (two64 <> 0) by discriminate.
+      set (x := c' + popcount bits) in *. set (y := cnt + popcount b') in *.
+      pose proof (N.mod_lt x two64 H). pose proof (N.mod_lt y two64 H).
+      rewrite <- (N.add_mod_idemp_l x 1), <- (N.add_mod_idemp_l y 1) in E by assumption.
+      now apply (mod_succ_cancel _ _ two64).
+    + intros _. destruct t as [|i' t'].
+      * cbn [qau_loop] in Eq. injection Eq as _ <- _. apply w64_lt.
+      * apply Hlt. discriminate.
+Qed.
+
+(* ------------------------------------------------------------------ *)
+(* one filter object under arbitrary operation histories                *)
+(* ------------------------------------------------------------------ *)
+
+(* The object as the code sees it: the cached fields [s_f], the bit array it addresses [s_bits] (owned, or inside wrapped
+   memory) and the count stored at byte 24 of the wrapped memory [s_mcnt] (meaningless for owned filters). *)
+Record cst := mkS { s_f : filt; s_bits : N; s_mcnt : N }.
+
+Inductive fop :=
+| FUpdate (x : item) | FQau (x : item)
+| FUnion (o : N) | FIntersect (o : N) | FInvert | FReset | FBitsUsed.
+
+Definition apply_eff (s : cst) (e : eff) : cst :=
+  mkS (x_f e) (x_bits e) (match x_memw e with Some c => c | None => s_mcnt s end).
+
+Section Object.
+  Variable fx : bool.                 (* false = the code as it is, true = with the proposed repairs *)
+  Variable idx : item -> list N.      (* ANY index function (in the model: the double-hashing indices of ANY hash function) *)
+
+  Definition fstep (s : cst) (op : fop) : cst :=
+    match op with
+    | FUpdate x => match core_update fx (s_f s) (s_bits s) (idx x) with Some e => apply_eff s e | None => s end
+    | FQau x => match core_qau fx (s_f s) (s_bits s) (idx x) with Some (e, _) => apply_eff s e | None => s end
+    | FUnion o => match core_union fx (s_f s) (s_bits s) o with Some e => apply_eff s e | None => s end
+    | FIntersect o => match core_intersect fx (s_f s) (s_bits s) o with Some e => apply_eff s e | None => s end
+    | FInvert => match core_invert fx (s_f s) (s_bits s) with Some e => apply_eff s e | None => s end
+    | FReset => match core_reset (s_f s) with Some e => apply_eff s e | None => s end
+    | FBitsUsed => mkS (core_bits_used (s_f s) (s_bits s)) (s_bits s) (s_mcnt s)
+    end.
+
+  Definition frun (ops : list fop) (s : cst) : cst := fold_left fstep ops s.
+
+  Definition squery (s : cst) (x : item) : bool := core_query (s_f s) (s_bits s) (idx x).
+
+  Definition monotone (op : fop) : Prop :=
+    match op with FIntersect _ | FInvert | FReset => False | _ => True end.
+  Definition inserts (op : fop) (x : item) : Prop := op = FUpdate x \/ op = FQau x.
+
+  (* ---- what every operation does to the bit array and to the fixed fields ---- *)
+
+  Lemma qau_loop_bits l bits cnt ex : fst (fst (qau_loop l bits cnt ex)) = set_bits bits l.
+  Proof. pose proof (qau_loop_spec l bits cnt ex) as H. destruct (qau_loop l bits cnt ex) as [[b c] e]. apply H. Qed.
+
+  Lemma core_qau_bits f bits l e ex :
+    core_qau fx f bits l = Some (e, ex) -> x_bits e = set_bits bits l /\ ex = all_set bits l.
+  Proof.
+    unfold core_qau. destruct (f_ro f); [discriminate|].
+    pose proof (qau_loop_spec l bits (f_cnt f) true) as H.
+    destruct (qau_loop l bits (f_cnt f) true) as [[b c] e0]. destruct H as (Hb & He & _).
+    destruct l as [|i t].
+    - intros [= <- <-]. cbn. split; [reflexivity|]. now rewrite He.
+    - destruct (fx && f_dirty f); intros [= <- <-]; cbn [x_bits upd_cnt]; (split; [exact Hb|now rewrite He]).
+  Qed.
+
+  Definition fixed_fields (f g : filt) : Prop :=
+    f_seed g = f_seed f /\ f_nh g = f_nh f /\ f_cap g = f_cap f /\ f_ro g = f_ro f /\ f_mem g = f_mem f.
+
+  Lemma fixed_refl f : fixed_fields f f.
+  Proof. repeat split. Qed.
+
+  Lemma fixed_cache f d c : fixed_fields f (f_cache f d c).
+  Proof. repeat split. Qed.
+
+  Lemma fstep_fixed s op : fixed_fields (s_f s) (s_f (fstep s op)).
+  Proof.
+    destruct op; cbn [fstep].
+    - unfold core_update. destruct (f_ro (s_f s)); [apply fixed_refl|apply fixed_cache].
+    - unfold core_qau. destruct (f_ro (s_f s)); [apply fixed_refl|].
+      destruct (qau_loop (idx x) (s_bits s) (f_cnt (s_f s)) true) as [[b c] e].
+      destruct (idx x); [apply fixed_refl|]. destruct (fx && f_dirty (s_f s)); [apply fixed_refl|apply fixed_cache].
+    - unfold core_union. destruct (fx && f_ro (s_f s)); [apply fixed_refl|apply fixed_cache].
+    - unfold core_intersect. destruct (fx && f_ro (s_f s)); [apply fixed_refl|apply fixed_cache].
+    - unfold core_invert. destruct (fx && f_ro (s_f s)); [apply fixed_refl|apply fixed_cache].
+    - unfold core_reset. destruct (f_ro (s_f s)); [apply fixed_refl|apply fixed_cache].
+    - unfold core_bits_used. cbn. destruct (f_dirty (s_f s)); [apply fixed_cache|apply fixed_refl].
+  Qed.
+
+  Lemma frun_fixed ops : forall s, fixed_fields (s_f s) (s_f (frun ops s)).
+  Proof.
+    induction ops as [|op t IH]; intros s; [apply fixed_refl|].
+    change (frun (op :: t) s) with (frun t (fstep s op)).
+    destruct (fstep_fixed s op) as (A & B & C & D & E), (IH (fstep s op)) as (A' & B' & C' & D' & E').
+    unfold fixed_fields. rewrite A', B', C', D', E'. now repeat split.
+  Qed.
+
+  Lemma fstep_bits s op :
+    s_bits (fstep s op) =
+    match op with
+    | FUpdate x | FQau x => if f_ro (s_f s) then s_bits s else set_bits (s_bits s) (idx x)
+    | FUnion o => if fx && f_ro (s_f s) then s_bits s else N.lor (s_bits s) o
+    | FIntersect o => if fx && f_ro (s_f s) then s_bits s else N.land (s_bits s) o
+    | FInvert => if fx && f_ro (s_f s) then s_bits s else N.lxor (s_bits s) (N.ones (f_cap (s_f s)))
+    | FReset => if f_ro (s_f s) then s_bits s else 0
+    | FBitsUsed => s_bits s
+    end.
+  Proof.
+    destruct op; cbn [fstep].
+    - unfold core_update. now destruct (f_ro (s_f s)).
+    - destruct (core_qau fx (s_f s) (s_bits s) (idx x)) as [[e ex]|] eqn:E.
+      + destruct (core_qau_bits _ _ _ _ _ E) as [Hb _]. unfold core_qau in E.
+        destruct (f_ro (s_f s)); [discriminate|]. exact Hb.
+      + unfold core_qau in E. destruct (f_ro (s_f s)); [reflexivity|].
+        destruct (qau_loop (idx x) (s_bits s) (f_cnt (s_f s)) true) as [[b c] e].
+        destruct (idx x); [discriminate|]. destruct (fx && f_dirty (s_f s)); discriminate.
+    - unfold core_union. now destruct (fx && f_ro (s_f s)).
+    - unfold core_intersect. now destruct (fx && f_ro (s_f s)).
+    - unfold core_invert. now destruct (fx && f_ro (s_f s)).
+    - unfold core_reset. now destruct (f_ro (s_f s)).
+    - reflexivity.
+  Qed.
+
+  (* ---- no false negatives at the level of the bit array: ANY history, ANY start state, both variants ---- *)
+
+  Lemma fstep_mono s op j :
+    monotone op -> N.testbit (s_bits s) j = true -> N.testbit (s_bits (fstep s op)) j = true.
+  Proof.
+    intros Hm Hj. rewrite fstep_bits. destruct op; cbn in Hm; try contradiction.
+    - destruct (f_ro (s_f s)); [assumption|now apply set_bits_mono].
+    - destruct (f_ro (s_f s)); [assumption|now apply set_bits_mono].
+    - destruct (fx && f_ro (s_f s)); [assumption|]. now rewrite N.lor_spec, Hj.
+    - assumption.
+  Qed.
+
+  Lemma frun_mono ops : forall s j,
+    Forall monotone ops -> N.testbit (s_bits s) j = true -> N.testbit (s_bits (frun ops s)) j = true.
+  Proof.
+    induction ops as [|op t IH]; intros s j Hf Hj; cbn; [assumption|].
+    inversion Hf; subst. apply IH; [assumption|]. now apply fstep_mono.
+  Qed.
+
+  Lemma insert_sets s op x :
+    inserts op x -> f_ro (s_f s) = false -> all_set (s_bits (fstep s op)) (idx x) = true.
+  Proof.
+    intros [->| ->] Hro; rewrite fstep_bits, Hro; apply all_set_set_bits.
+  Qed.
+
+  Lemma frun_app a b s : frun (a ++ b) s = frun b (frun a s).
+  Proof. unfold frun. apply fold_left_app. Qed.
+
+  Theorem nfn_bits s pre ins post x :
+    f_ro (s_f s) = false -> inserts ins x -> Forall monotone post ->
+    all_set (s_bits (frun (pre ++ ins :: post) s)) (idx x) = true.
+  Proof.
+    intros Hro Hins Hpost. rewrite frun_app. cbn [frun fold_left]. fold (frun post (fstep (frun pre s) ins)).
+    apply all_set_spec. intros i Hi. apply frun_mono; [assumption|].
+    assert (Hro' : f_ro (s_f (frun pre s)) = false).
+    { destruct (frun_fixed pre s) as (_ & _ & _ & D & _). congruence. }
+    pose proof (insert_sets (frun pre s) ins x Hins Hro') as H.
+    rewrite all_set_spec in H. now apply H.
+  Qed.
+
+  (* query answers "absent" for an item whose bits are all set ONLY through the is_empty short-circuit *)
+  Lemma squery_spec s x : squery s x = negb (is_empty (s_f s)) && all_set (s_bits s) (idx x).
+  Proof. unfold squery, core_query. now destruct (is_empty (s_f s)). Qed.
+
+  (* ---- the cached count ---- *)
+  Variable cap : N.
+  Hypothesis cap_lt : cap < two64.
+  Hypothesis idx_lt : forall x i, In i (idx x) -> i < cap.
+
+  Definition cache_ok (s : cst) : Prop := f_dirty (s_f s) = true \/ f_cnt (s_f s) = popcount (s_bits s).
+  Definition inv (s : cst) : Prop := f_cap (s_f s) = cap /\ in_range (s_bits s) cap /\ cache_ok s.
+  Definition op_ok (op : fop) : Prop := match op with FUnion o => in_range o cap | _ => True end.
+
+  (* every query_and_update of the history meets a filter whose dirty flag is clear *)
+  Fixpoint qau_clean (s : cst) (ops : list fop) : Prop :=
+    match ops with
+    | [] => True
+    | op :: t => (match op with FQau _ => f_dirty (s_f s) = false | _ => True end) /\ qau_clean (fstep s op) t
+    end.
+
+  Lemma popcount_lt_two64 b : in_range b cap -> popcount b < two64.
+  Proof. intros H. pose proof (in_range_popcount _ _ H). lia. Qed.
+
+  Lemma qau_cnt_exact l bits cnt b c e :
+    (forall i, In i l -> i < cap) -> in_range bits cap -> cnt = popcount bits -> l <> [] ->
+    qau_loop l bits cnt true = (b, c, e) -> c = popcount b.
+  Proof.
+    intros Hl Hr Hc Hne E. pose proof (qau_loop_spec l bits cnt true) as H. rewrite E in H.
+    destruct H as (Hb & _ & Hw & Hlt). specialize (Hlt Hne). subst cnt.
+    assert (Hrb : in_range b cap) by (subst b; now apply in_range_set_bits).
+    pose proof (popcount_lt_two64 _ Hrb) as Hpb.
+    rewrite !w64_mod in Hw.
+    assert (HT : two64 <> 0) by discriminate.
+    (* (c + p) mod T = (p + pb) mod T, c < T, pb < T  =>  c = pb *)
+    rewrite (N.add_comm c), <- (N.add_mod_idemp_r (popcount bits) c), <- (N.add_mod_idemp_r (popcount bits) (popcount b)) in Hw
+      by assumption.
+    rewrite (N.mod_small c), (N.mod_small (popcount b)) in Hw by assumption.
+    set (p := popcount bits) in *.
+    (* add two64 - p mod T on both sides *)
+    assert (Hc : (p + c) mod two64 = (p + popcount b) mod two64 -> c = popcount b).
+    { clear Hw. intros Hw.
+      pose proof (N.div_mod (p + c) two64 HT) as D1. pose proof (N.div_mod (p + popcount b) two64 HT) as D2.
+      pose proof (N.mod_lt (p + c) two64 HT). pose proof (N.mod_lt (p + popcount b) two64 HT).
+      rewrite Hw in D1.
+      set (q1 := (p + c) / two64) in *. set (q2 := (p + popcount b) / two64) in *.
+      set (m := (p + popcount b) mod two64) in *.
+      assert (q1 = q2) by nia. nia. }
+    now apply Hc.
+  Qed.
+
+  Lemma inv_fstep s op :
+    inv s -> op_ok op ->
+    (fx = true \/ match op with FQau _ => f_dirty (s_f s) = false | _ => True end) ->
+    inv (fstep s op).
+  Proof.
+    intros (Hcap & Hr & Hc) Hop Hsafe.
+    split; [|split].
+    - destruct (fstep_fixed s op) as (_ & _ & C & _). congruence.
+    - rewrite fstep_bits. destruct op.
+      + destruct (f_ro (s_f s)); [assumption|]. apply in_range_set_bits; [assumption|apply idx_lt].
+      + destruct (f_ro (s_f s)); [assumption|]. apply in_range_set_bits; [assumption|apply idx_lt].
+      + destruct (fx && f_ro (s_f s)); [assumption|]. now apply in_range_lor.
+      + destruct (fx && f_ro (s_f s)); [assumption|]. now apply in_range_land.
+      + destruct (fx && f_ro (s_f s)); [assumption|]. rewrite Hcap. now apply in_range_invert.
+      + destruct (f_ro (s_f s)); [assumption|apply in_range_0].
+      + assumption.
+    - unfold cache_ok in *. destruct op; cbn [fstep].
+      + unfold core_update. destruct (f_ro (s_f s)); [exact Hc|]. left. reflexivity.
+      + unfold core_qau. destruct (f_ro (s_f s)); [exact Hc|].
+        destruct (qau_loop (idx x) (s_bits s) (f_cnt (s_f s)) true) as [[b c] e] eqn:E.
+        destruct (idx x) as [|i t] eqn:Ei; [exact Hc|].
+        destruct (f_dirty (s_f s)) eqn:Hd.
+        * destruct Hsafe as [-> | Hs]; [|discriminate]. cbn [andb apply_eff x_f x_bits]. left. exact Hd.
+        * rewrite andb_false_r. cbn [apply_eff upd_cnt x_f x_bits f_cache f_dirty f_cnt]. right.
+          destruct Hc as [Hc|Hc]; [discriminate|].
+          eapply qau_cnt_exact; [| |exact Hc| |exact E]; try assumption.
+          -- rewrite <- Ei. apply idx_lt.
+          -- discriminate.
+      + unfold core_union. destruct (fx && f_ro (s_f s)); [exact Hc|]. right. reflexivity.
+      + unfold core_intersect. destruct (fx && f_ro (s_f s)); [exact Hc|]. right. reflexivity.
+      + unfold core_invert. destruct (fx && f_ro (s_f s)); [exact Hc|]. right. reflexivity.
+      + unfold core_reset. destruct (f_ro (s_f s)); [exact Hc|]. right. reflexivity.
+      + unfold core_bits_used. cbn [s_f s_bits]. destruct (f_dirty (s_f s)) eqn:Hd.
+        * right. reflexivity.
+        * rewrite Hd. exact Hc.
+  Qed.
+
+  Lemma inv_frun ops : forall s,
+    inv s -> Forall op_ok ops -> (fx = true \/ qau_clean s ops) -> inv (frun ops s).
+  Proof.
+    induction ops as [|op t IH]; intros s Hi Hok Hs; cbn; [assumption|].
+    inversion Hok; subst. apply IH; [|assumption|].
+    - apply inv_fstep; [assumption|assumption|]. destruct Hs as [Hs|[Hs _]]; [now left|now right].
+    - destruct Hs as [Hs|[_ Hs]]; [now left|now right].
+  Qed.
+
+  (* with a sound cache, the is_empty short-circuit is harmless *)
+  Lemma inv_query s x :
+    inv s -> idx x <> [] -> all_set (s_bits s) (idx x) = true -> squery s x = true.
+  Proof.
+    intros (_ & _ & Hc) Hne Hall. rewrite squery_spec, Hall, andb_true_r.
+    unfold is_empty. destruct (f_dirty (s_f s)) eqn:Hd; [reflexivity|]. cbn.
+    destruct Hc as [Hc|Hc]; [congruence|].
+    destruct (N.eqb_spec (f_cnt (s_f s)) 0) as [E|]; [|reflexivity]. exfalso.
+    rewrite Hc in E. apply (proj1 (popcount_zero _)) in E.
+    destruct (idx x) as [|i t]; [congruence|].
+    rewrite all_set_spec in Hall. specialize (Hall i (or_introl eq_refl)). rewrite E, N.bits_0 in Hall. discriminate.
+  Qed.
+
+  (* no false negatives of query(): the repaired model for EVERY history; the code as it is for every history in which
+     query_and_update never meets a dirty filter *)
+  Theorem nfn_query s pre ins post x :
+    inv s -> f_ro (s_f s) = false -> idx x <> [] ->
+    inserts ins x -> Forall monotone post -> Forall op_ok (pre ++ ins :: post) ->
+    (fx = true \/ qau_clean s (pre ++ ins :: post)) ->
+    squery (frun (pre ++ ins :: post) s) x = true.
+  Proof.
+    intros Hi Hro Hne Hins Hpost Hok Hs.
+    apply inv_query; [now apply inv_frun|assumption|now apply nfn_bits].
+  Qed.
+
+  (* exact count after any history (same side condition) *)
+  Theorem bits_used_exact s ops :
+    inv s -> Forall op_ok ops -> (fx = true \/ qau_clean s ops) ->
+    f_cnt (s_f (fstep (frun ops s) FBitsUsed)) = popcount (s_bits (frun ops s)).
+  Proof.
+    intros Hi Hok Hs. destruct (inv_frun ops s Hi Hok Hs) as (_ & _ & Hc).
+    cbn [fstep s_f]. unfold core_bits_used. destruct (f_dirty (s_f (frun ops s))) eqn:Hd; [reflexivity|].
+    destruct Hc as [Hc|Hc]; [congruence|exact Hc].
+  Qed.
+
+  (* ---- the count stored in wrapped memory (writable view) ---- *)
+
+  Definition is_wview (s : cst) : Prop := f_mem (s_f s) <> None /\ f_ro (s_f s) = false.
+  (* the stored count is the dirty marker or exact; a dirty view has announced it in memory *)
+  Definition minv (s : cst) : Prop :=
+    (s_mcnt s = DIRTY \/ s_mcnt s = popcount (s_bits s)) /\ (f_dirty (s_f s) = true -> s_mcnt s = DIRTY).
+
+  Lemma memw_wview f c : f_mem f <> None -> f_ro f = false -> memw_of f c = Some c.
+  Proof. unfold memw_of. intros Hm ->. destruct (f_mem f); congruence. Qed.
+
+  (* repaired model: every operation keeps the memory image consistent *)
+  Lemma minv_fstep_fixed s op :
+    fx = true -> is_wview s -> inv s -> op_ok op -> minv s -> minv (fstep s op).
+  Proof.
+    intros Hfx (Hm & Hro) Hi Hop (Hmc & Hd).
+    pose proof (inv_fstep s op Hi Hop (or_introl Hfx)) as (_ & _ & Hc').
+    unfold minv. destruct op; cbn [fstep] in *.
+    - unfold core_update in *. rewrite Hro, Hfx in *. cbn [apply_eff x_memw x_f x_bits s_mcnt s_f s_bits].
+      rewrite (memw_wview _ _ Hm Hro). split; [now left|reflexivity].
+    - unfold core_qau in *. rewrite Hro, Hfx in *.
+      destruct (qau_loop (idx x) (s_bits s) (f_cnt (s_f s)) true) as [[b c] e] eqn:E.
+      destruct (idx x) as [|i t] eqn:Ei; [now split|].
+      cbn [andb] in *. destruct (f_dirty (s_f s)) eqn:Hdd.
+      + cbn [apply_eff x_memw x_f x_bits s_mcnt s_f s_bits]. rewrite Hdd.
+        split; [left; now apply Hd|intros _; now apply Hd].
+      + cbn [apply_eff upd_cnt x_memw x_f x_bits s_mcnt s_f s_bits f_cache f_dirty f_cnt] in *.
+        rewrite (memw_wview _ _ Hm Hro). destruct Hc' as [Hc'|Hc']; [discriminate|].
+        split; [now right|discriminate].
+    - unfold core_union in *. rewrite Hro, Hfx in *.
+      cbn [andb apply_eff upd_cnt x_memw x_f x_bits s_mcnt s_f s_bits f_cache f_dirty].
+      rewrite (memw_wview _ _ Hm Hro). split; [now right|discriminate].
+    - unfold core_intersect in *. rewrite Hro, Hfx in *.
+      cbn [andb apply_eff upd_cnt x_memw x_f x_bits s_mcnt s_f s_bits f_cache f_dirty].
+      rewrite (memw_wview _ _ Hm Hro). split; [now right|discriminate].
+    - unfold core_invert in *. rewrite Hro, Hfx in *.
+      cbn [andb apply_eff upd_cnt x_memw x_f x_bits s_mcnt s_f s_bits f_cache f_dirty].
+      rewrite (memw_wview _ _ Hm Hro). split; [now right|discriminate].
+    - unfold core_reset in *. rewrite Hro in *.
+      cbn [apply_eff upd_cnt x_memw x_f x_bits s_mcnt s_f s_bits f_cache f_dirty].
+      rewrite (memw_wview _ _ Hm Hro). split; [now right|discriminate].
+    - cbn [s_mcnt s_bits s_f]. split; [exact Hmc|]. unfold core_bits_used.
+      destruct (f_dirty (s_f s)) eqn:Hdd; [discriminate|]. rewrite Hdd. discriminate.
+  Qed.
+
+  Lemma is_wview_fstep s op : is_wview s -> is_wview (fstep s op).
+  Proof.
+    intros (Hm & Hro). destruct (fstep_fixed s op) as (_ & _ & _ & D & E). split; congruence.
+  Qed.
+
+  Lemma minv_frun_fixed ops : forall s,
+    fx = true -> is_wview s -> inv s -> Forall op_ok ops -> minv s -> minv (frun ops s).
+  Proof.
+    induction ops as [|op t IH]; intros s Hfx Hw Hi Hok Hm; cbn; [assumption|].
+    inversion Hok; subst. apply IH; try assumption.
+    - now apply is_wview_fstep.
+    - apply inv_fstep; [assumption|assumption|now left].
+    - now apply minv_fstep_fixed.
+  Qed.
+
+  (* the code as it is: the image stays consistent as long as the view is never written by plain update()
+     (query_and_update, set operations, reset and get_bits_used keep the stored count exact) *)
+  Definition no_update (op : fop) : Prop := match op with FUpdate _ => False | _ => True end.
+  Definition exact (s : cst) : Prop :=
+    f_dirty (s_f s) = false /\ f_cnt (s_f s) = popcount (s_bits s) /\ s_mcnt s = popcount (s_bits s).
+
+  Lemma exact_fstep s op :
+    is_wview s -> inv s -> op_ok op -> no_update op -> exact s -> exact (fstep s op).
+  Proof.
+    intros (Hm & Hro) Hi Hop Hnu (Hd & Hc & Hmc).
+    assert (Hsafe : fx = true \/ match op with FQau _ => f_dirty (s_f s) = false | _ => True end).
+    { right. destruct op; auto. }
+    pose proof (inv_fstep s op Hi Hop Hsafe) as (_ & _ & Hc').
+    unfold exact. destruct op; cbn [fstep] in *; try contradiction.
+    - unfold core_qau in *. rewrite Hro in *.
+      destruct (qau_loop (idx x) (s_bits s) (f_cnt (s_f s)) true) as [[b c] e] eqn:E.
+      destruct (idx x) as [|i t] eqn:Ei; [now repeat split|].
+      rewrite Hd, andb_false_r in *.
+      cbn [apply_eff upd_cnt x_memw x_f x_bits s_mcnt s_f s_bits f_cache f_dirty f_cnt] in *.
+      rewrite (memw_wview _ _ Hm Hro). destruct Hc' as [Hc'|Hc']; [discriminate|]. now repeat split.
+    - unfold core_union in *. rewrite Hro, andb_false_r in *.
+      cbn [apply_eff upd_cnt x_memw x_f x_bits s_mcnt s_f s_bits f_cache f_dirty f_cnt].
+      rewrite (memw_wview _ _ Hm Hro). now repeat split.
+    - unfold core_intersect in *. rewrite Hro, andb_false_r in *.
+      cbn [apply_eff upd_cnt x_memw x_f x_bits s_mcnt s_f s_bits f_cache f_dirty f_cnt].
+      rewrite (memw_wview _ _ Hm Hro). now repeat split.
+    - unfold core_invert in *. rewrite Hro, andb_false_r in *.
+      cbn [apply_eff upd_cnt x_memw x_f x_bits s_mcnt s_f s_bits f_cache f_dirty f_cnt].
+      rewrite (memw_wview _ _ Hm Hro). now repeat split.
+    - unfold core_reset in *. rewrite Hro in *.
+      cbn [apply_eff upd_cnt x_memw x_f x_bits s_mcnt s_f s_bits f_cache f_dirty f_cnt].
+      rewrite (memw_wview _ _ Hm Hro). now repeat split.
+    - unfold core_bits_used. cbn [s_f s_bits s_mcnt]. rewrite Hd. now repeat split.
+  Qed.
+
+  Lemma exact_inv_frun ops : forall s,
+    is_wview s -> inv s -> Forall op_ok ops -> Forall no_update ops -> exact s ->
+    exact (frun ops s) /\ inv (frun ops s).
+  Proof.
+    induction ops as [|op t IH]; intros s Hw Hi Hok Hnu He; cbn; [now split|].
+    inversion Hok; inversion Hnu; subst. apply IH; try assumption.
+    - now apply is_wview_fstep.
+    - apply inv_fstep; [assumption|assumption|]. right. destruct op; auto. apply He.
+    - now apply exact_fstep.
+  Qed.
+
+  (* ---- fresh views of the memory: what wrap / writable_wrap / deserialize build from the stored count ---- *)
+
+  Definition wrap_view (s : cst) (ro : bool) : cst :=
+    let f := s_f s in let d := N.eqb (s_mcnt s) DIRTY in
+    mkS (mkF (f_seed f) (f_nh f) (f_cap f) d ro (if ro && d then popcount (s_bits s) else s_mcnt s) (f_mem f) 0)
+        (s_bits s) (s_mcnt s).
+  Definition deser_view (s : cst) : cst :=
+    let f := s_f s in
+    mkS (mkF (f_seed f) (f_nh f) (f_cap f) (N.eqb (s_mcnt s) DIRTY) false (s_mcnt s) None (s_bits s)) (s_bits s) (s_mcnt s).
+
+  Lemma fresh_view_inv s ro :
+    inv s -> (s_mcnt s = DIRTY \/ s_mcnt s = popcount (s_bits s)) -> inv (wrap_view s ro) /\ inv (deser_view s).
+  Proof.
+    intros (Hcap & Hr & _) Hm. unfold inv, cache_ok, wrap_view, deser_view. cbn.
+    destruct (N.eqb_spec (s_mcnt s) DIRTY) as [E|E].
+    - repeat split; auto.
+    - destruct Hm as [Hm|Hm]; [contradiction|]. rewrite andb_false_r. repeat split; auto.
+  Qed.
+End Object.
+
+(* ------------------------------------------------------------------ *)
+(* set algebra, query_and_update, refusals (single operations)          *)
+(* ------------------------------------------------------------------ *)
+
+Lemma union_is_or fx f bits o e :
+  core_union fx f bits o = Some e ->
+  x_bits e = N.lor bits o /\ f_cnt (x_f e) = popcount (N.lor bits o) /\ f_dirty (x_f e) = false /\
+  x_memw e = memw_of f (popcount (N.lor bits o)).
+Proof. unfold core_union. destruct (fx && f_ro f); [discriminate|]. intros [= <-]. now cbn. Qed.
+
+Lemma intersect_is_and fx f bits o e :
+  core_intersect fx f bits o = Some e ->
+  x_bits e = N.land bits o /\ f_cnt (x_f e) = popcount (N.land bits o) /\ f_dirty (x_f e) = false /\
+  x_memw e = memw_of f (popcount (N.land bits o)).
+Proof. unfold core_intersect. destruct (fx && f_ro f); [discriminate|]. intros [= <-]. now cbn. Qed.
+
+(* NOT restricted to the capacity: bits below the capacity are flipped, nothing above it appears *)
+Lemma invert_is_not fx f bits e :
+  core_invert fx f bits = Some e ->
+  (forall j, N.testbit (x_bits e) j = if j <? f_cap f then negb (N.testbit bits j) else N.testbit bits j) /\
+  f_cnt (x_f e) = popcount (x_bits e) /\ f_dirty (x_f e) = false /\ x_memw e = memw_of f (popcount (x_bits e)).
+Proof.
+  unfold core_invert. destruct (fx && f_ro f); [discriminate|]. intros [= <-].
+  cbn [x_bits x_f upd_cnt f_cache f_cnt f_dirty x_memw]. repeat split.
+  intros j. rewrite N.lxor_spec, ones_spec. destruct (j <? f_cap f); [apply xorb_true_r|apply xorb_false_r].
+Qed.
+
+Lemma reset_clears f e : core_reset f = Some e -> x_bits e = 0 /\ f_cnt (x_f e) = 0 /\ f_dirty (x_f e) = false.
+Proof. unfold core_reset. destruct (f_ro f); [discriminate|]. intros [= <-]. now cbn. Qed.
+
+(* query_and_update returns exactly whether all index bits were set before the call, and sets them *)
+Lemma qau_prior_membership fx f bits l e ex :
+  core_qau fx f bits l = Some (e, ex) -> ex = all_set bits l /\ x_bits e = set_bits bits l.
+Proof. intros H. destruct (core_qau_bits fx f bits l e ex H). now split. Qed.
+
+Lemma readonly_refusals fx f bits l :
+  f_ro f = true -> core_update fx f bits l = None /\ core_qau fx f bits l = None /\ core_reset f = None.
+Proof. intros H. unfold core_update, core_qau, core_reset. now rewrite H. Qed.
+
+Lemma readonly_setops_refused_fixed f bits o :
+  f_ro f = true ->
+  core_union true f bits o = None /\ core_intersect true f bits o = None /\ core_invert true f bits = None.
+Proof. intros H. unfold core_union, core_intersect, core_invert. now rewrite H. Qed.
+
+(* ... but not in the code as it is *)
+Lemma readonly_setops_not_refused f bits o :
+  core_union false f bits o <> None /\ core_intersect false f bits o <> None /\ core_invert false f bits <> None.
+Proof. unfold core_union, core_intersect, core_invert. cbn. repeat split; discriminate. Qed.
+
+(* ------------------------------------------------------------------ *)
+(* the double-hashing indices of ANY hash function                      *)
+(* ------------------------------------------------------------------ *)
+
+Lemma bf_index_lt cap h0 h1 i : cap <> 0 -> bf_index cap h0 h1 i < cap.
+Proof. intros H. unfold bf_index. now apply N.mod_lt. Qed.
+
+Lemma bf_indices_lt cap nh h0 h1 i : cap <> 0 -> In i (bf_indices cap nh h0 h1) -> i < cap.
+Proof.
+  intros H Hi. unfold bf_indices in Hi. apply in_map_iff in Hi. destruct Hi as (k & <- & _). now apply bf_index_lt.
+Qed.
+
+Lemma bf_indices_length cap nh h0 h1 : length (bf_indices cap nh h0 h1) = N.to_nat nh.
+Proof. unfold bf_indices. now rewrite map_length, seq_length. Qed.
+
+Lemma bf_indices_nonempty cap nh h0 h1 : nh <> 0 -> bf_indices cap nh h0 h1 <> [].
+Proof.
+  intros H E. apply (f_equal (@length N)) in E. rewrite bf_indices_length in E. cbn in E. lia.
+Qed.
+
+Lemma round_cap_spec nbits : nbits + 63 < two64 -> round_cap nbits = 64 * ((nbits + 63) / 64).
+Proof.
+  intros H. unfold round_cap. rewrite (w64_small _ H).
+  change 0xFFFFFFFFFFFFFFC0 with (N.shiftl (N.ones 58) 6).
+  apply N.bits_inj. intros j.
+  rewrite N.land_spec. replace (64 * ((nbits + 63) / 64)) with (N.shiftl (N.shiftr (nbits + 63) 6) 6).
+  2:{ rewrite N.shiftl_mul_pow2, N.shiftr_div_pow2. change (2 ^ 6) with 64. lia. }
+  destruct (N.lt_ge_cases j 6).
+  - rewrite !N.shiftl_spec_low by assumption. apply andb_false_r.
+  - rewrite !N.shiftl_spec_high' by assumption. rewrite N.shiftr_spec', ones_spec.
+    replace (j - 6 + 6) with j by lia.
+    destruct (N.ltb_spec (j - 6) 58); [apply andb_true_r|].
+    rewrite andb_false_r. symmetry. apply N.bits_above_log2.
+    destruct (N.eq_dec (nbits + 63) 0) as [E|E]; [lia|].
+    apply N.log2_lt_pow2; [lia|]. eapply N.lt_le_trans; [exact H|].
+    change two64 with (2 ^ 64). apply N.pow_le_mono_r; lia.
+Qed.
